@@ -891,6 +891,25 @@ def r8(ctx):
                                      for x in sites):
                         ok = True
                         how = 'guarded at all %d call sites' % len(sites)
+                # ... and by nothing about another dimension: a converter
+                # fetched only when some *other* unit is non-default is
+                # skipped for kg/min, lb/s style combinations
+                foreign = []
+                for t, pol in U.guards(c):
+                    for x in ast.walk(t):
+                        if isinstance(x, ast.Compare) and len(x.ops) == 1 \
+                                and isinstance(x.ops[0], (ast.In, ast.NotIn)):
+                            comp = ' '.join(src(x.comparators[0]).split())
+                            for d2 in set(_GETTER_DIM.values()) - {dim}:
+                                if comp.endswith("_DEFAULT_UNITS['%s']" % d2):
+                                    foreign.append(d2)
+                ctx.require(
+                    not foreign, 'C17.R8', fi, c,
+                    'the %s converter is fetched only under a condition on '
+                    'the %s unit: with a default %s unit the %s part of the '
+                    'value is never converted' % (dim, foreign, foreign, dim),
+                    key='%s | %s guarded by another dimension'
+                    % (fi.full, nm))
                 ctx.require(
                     ok, 'C17.R8', fi, c,
                     'utils.%s raises "Cannot convert unit to itself" when '
